@@ -1209,3 +1209,147 @@ Proof.
                                apply (Lift h _ eq_refl); apply hfloat_follow_finite].
     + left. destruct (hint_is_wrongtype hint); split; reflexivity.
 Qed.
+
+(* ------------------------------------------------------------------ HRANDFIELD *)
+(* what the reference allows for a count: existing fields with their values; a non-negative count
+   yields min(count, len) distinct fields, a negative count exactly |count| fields *)
+Definition rand_ok (h : hash) (c : Z) (ps : list (bytes * bytes)) : Prop :=
+  (forall f v, In (f, v) ps -> hview h f = Some v) /\
+  (if 0 <=? c then NoDup (map fst ps) /\ zlength ps = Z.min c (zlength h) else zlength ps = - c).
+
+Lemma nodupb_spec l : nodupb l = true -> NoDup l.
+Proof.
+  induction l as [|x r IH]; cbn; intros H; [constructor|].
+  apply andb_true_iff in H as [H1 H2]. constructor; [|apply IH; exact H2].
+  intros Hin. apply negb_true_iff in H1.
+  assert (existsb (bytes_eqb x) r = true) as X; [|congruence].
+  apply existsb_exists. exists x. split; [exact Hin|apply bytes_eqb_refl].
+Qed.
+
+Lemma NoDup_firstn {A} (l : list A) n : NoDup l -> NoDup (firstn n l).
+Proof.
+  revert n. induction l as [|x r IH]; intros n ND; destruct n; cbn; try constructor.
+  - inversion ND as [|? ? Hn ND']; subst. intros Hin. apply Hn.
+    rewrite <- (firstn_skipn n r). apply in_or_app. left. exact Hin.
+  - inversion ND; subst. apply IH. assumption.
+Qed.
+
+Lemma In_firstn {A} (l : list A) n x : In x (firstn n l) -> In x l.
+Proof. intros H. rewrite <- (firstn_skipn n l). apply in_or_app. left. exact H. Qed.
+
+Lemma zlength_map {A C} (g : A -> C) l : zlength (map g l) = zlength l.
+Proof. unfold zlength. rewrite map_length. reflexivity. Qed.
+
+Lemma hrand_canon_ok h c : h <> [] -> NoDup (akeys h) -> rand_ok h c (hrand_canon h c).
+Proof.
+  intros Hne ND. unfold rand_ok, hrand_canon. destruct (0 <=? c) eqn:C.
+  - apply Z.leb_le in C. split; [|split].
+    + intros f v Hin. apply In_firstn in Hin. unfold hview. apply In_alookup; assumption.
+    + rewrite <- firstn_map. apply NoDup_firstn. exact ND.
+    + unfold zlength. rewrite firstn_length.
+      pose proof (zlength_nonneg h) as P. unfold zlength in *.
+      rewrite Nat2Z.inj_min, Z2Nat.id by lia. lia.
+  - apply Z.leb_gt in C. destruct h as [|p r]; [congruence|]. split.
+    + intros f v Hin. apply repeat_spec in Hin. subst p. unfold hview. apply In_alookup; [exact ND|left; reflexivity].
+    + unfold zlength. rewrite repeat_length. lia.
+Qed.
+
+Lemma forallb_amem_lookup (h : hash) fs : forallb (fun f => amem f h) fs = true ->
+  forall f, In f fs -> exists v, alookup f h = Some v.
+Proof.
+  intros H f Hin. rewrite forallb_forall in H. specialize (H f Hin). unfold amem in H.
+  destruct (alookup f h); [eauto|discriminate].
+Qed.
+
+Lemma hrand_count_sound h c fs : hrand_count_ok h c fs = true ->
+  if 0 <=? c then NoDup fs /\ zlength fs = Z.min c (zlength h) else zlength fs = - c.
+Proof.
+  unfold hrand_count_ok. destruct (0 <=? c).
+  - intros H. apply andb_true_iff in H as [H1 H2]. split; [apply nodupb_spec; exact H1|apply Z.eqb_eq; exact H2].
+  - intros H. apply Z.eqb_eq. exact H.
+Qed.
+
+(* for every observation the model's HRANDFIELD reply is one the reference allows *)
+Theorem hrand_reply_sound h c wv hint : h <> [] -> NoDup (akeys h) ->
+  exists ps, rand_ok h c ps /\
+    hrand_reply h c wv hint = RArr (if wv then flat_pairs ps else map (fun p => RBulk (fst p)) ps).
+Proof.
+  intros Hne ND.
+  assert (Canon : exists ps, rand_ok h c ps /\
+    RArr (if wv then flat_pairs (hrand_canon h c) else map (fun p => RBulk (fst p)) (hrand_canon h c)) =
+    RArr (if wv then flat_pairs ps else map (fun p => RBulk (fst p)) ps)).
+  { exists (hrand_canon h c). split; [apply hrand_canon_ok; assumption|reflexivity]. }
+  unfold hrand_reply. destruct hint; try exact Canon.
+  destruct (bulks l) as [bs|]; [|exact Canon].
+  destruct wv.
+  - destruct (pairs_of bs) as [ps|]; [|exact Canon].
+    destruct (hrand_pairs_ok h c ps) eqn:OK; [|exact Canon].
+    exists ps. split; [|reflexivity].
+    unfold hrand_pairs_ok in OK. apply andb_true_iff in OK as [O1 O2]. split.
+    + intros f v Hin. rewrite forallb_forall in O1. specialize (O1 (f, v) Hin). unfold pair_in in O1.
+      cbn [fst snd] in O1. unfold hview. destruct (alookup f h) as [v'|]; [|discriminate].
+      apply bytes_eqb_eq in O1. congruence.
+    + apply hrand_count_sound in O2. rewrite zlength_map in O2. exact O2.
+  - destruct (hrand_fields_ok h c bs) eqn:OK; [|exact Canon].
+    unfold hrand_fields_ok in OK. apply andb_true_iff in OK as [O1 O2].
+    exists (map (fun f => (f, match alookup f h with Some v => v | None => [] end)) bs). split.
+    + split.
+      * intros f v Hin. apply in_map_iff in Hin as [f' [E Hin]]. inversion E; subst.
+        destruct (forallb_amem_lookup h bs O1 f Hin) as [v E']. unfold hview. rewrite E'. reflexivity.
+      * apply hrand_count_sound in O2. rewrite map_map. cbn [fst]. rewrite map_id, zlength_map. exact O2.
+    + rewrite map_map. cbn [fst]. reflexivity.
+Qed.
+
+Theorem hrand_one_sound h hint : h <> [] -> exists f, hrand_one h hint = RBulk f /\ hview h f <> None.
+Proof.
+  intros Hne. unfold hrand_one. destruct h as [|[f0 v0] r]; [congruence|].
+  assert (D : hview ((f0, v0) :: r) f0 <> None).
+  { unfold hview. cbn. rewrite bytes_eqb_refl. discriminate. }
+  destruct hint; try (exists f0; split; [reflexivity|exact D]).
+  destruct (amem b ((f0, v0) :: r)) eqn:M; [|exists f0; split; [reflexivity|exact D]].
+  exists b. split; [reflexivity|]. unfold hview. unfold amem in M.
+  destruct (alookup b ((f0, v0) :: r)); [discriminate|discriminate].
+Qed.
+
+(* executor level: existing fields only, right count / sign / distinctness, database unchanged *)
+Theorem exec_hrandfield_count_spec d c k cnt n h hint :
+  hashes_ok d -> get_hash d k = HFound h -> atoi64 cnt = Some n -> - hrand_max <= n ->
+  exists ps, rand_ok h n ps /\
+    exec_hrandfield d [c; k; cnt] hint = (RArr (map (fun p => RBulk (fst p)) ps), d) /\
+    forall o, lower o = B "withvalues" ->
+      exists ps', rand_ok h n ps' /\ exec_hrandfield d [c; k; cnt; o] hint = (RArr (flat_pairs ps'), d).
+Proof.
+  intros OK H A L. destruct (get_hash_found_nodup d k h OK H) as [Hne ND].
+  assert (Lb : (n <? - hrand_max) = false) by (apply Z.ltb_ge; exact L).
+  destruct (hrand_reply_sound h n false hint Hne ND) as [ps [R E]].
+  exists ps. split; [exact R|]. split.
+  - unfold exec_hrandfield. rewrite A, Lb, H, E. reflexivity.
+  - intros o Lo. destruct (hrand_reply_sound h n true hint Hne ND) as [ps' [R' E']].
+    exists ps'. split; [exact R'|]. unfold exec_hrandfield. rewrite Lo. cbn [is bytes_eqb].
+    change (is (B "withvalues") (B "withvalues")) with true. cbv iota. rewrite A, Lb, H, E'. reflexivity.
+Qed.
+
+Theorem exec_hrandfield_one_spec d c k h hint :
+  hashes_ok d -> get_hash d k = HFound h ->
+  exists f, exec_hrandfield d [c; k] hint = (RBulk f, d) /\ hview h f <> None.
+Proof.
+  intros OK H. destruct (get_hash_found_nodup d k h OK H) as [Hne ND].
+  destruct (hrand_one_sound h hint Hne) as [f [E D]]. exists f. split; [|exact D].
+  unfold exec_hrandfield. rewrite H, E. reflexivity.
+Qed.
+
+Theorem exec_hrandfield_missing d c k cnt n hint :
+  get_hash d k = HMissing -> atoi64 cnt = Some n -> - hrand_max <= n ->
+  exec_hrandfield d [c; k] hint = (RNil, d) /\ exec_hrandfield d [c; k; cnt] hint = (RArr [], d).
+Proof.
+  intros H A L. assert (Lb : (n <? - hrand_max) = false) by (apply Z.ltb_ge; exact L).
+  unfold exec_hrandfield. rewrite H, A, Lb. split; reflexivity.
+Qed.
+
+(* the repair of the unbounded allocation: a count below -hrand_max is an error, whatever the key holds *)
+Theorem exec_hrandfield_bounded d c k cnt n hint :
+  atoi64 cnt = Some n -> n < - hrand_max -> exec_hrandfield d [c; k; cnt] hint = (err_other, d).
+Proof.
+  intros A L. assert (Lb : (n <? - hrand_max) = true) by (apply Z.ltb_lt; exact L).
+  unfold exec_hrandfield. rewrite A, Lb. reflexivity.
+Qed.
